@@ -12,9 +12,9 @@
    over them (they are part of [evs]).  Spec: Spec/ChainSpec.v (headers = finite parent map with positive weights,
    [heaviest] = maximum-weight chain from the anchor among the delivered headers, [good_trace]).
 
-   Hypothesis of the history-level theorems, [wf_headers]: the delivered headers form a forest not containing the
-   anchor (a rank, e.g. the height, decreases towards the parent), a hash determines its header, weights are
-   positive.  No exclusion predicate remains: duplicates (also of locked headers, also of the block at the lock
+   Hypothesis of the history-level theorems, [wf_headers]: the headers form a forest (a rank, e.g. the height,
+   decreases towards the parent), a hash determines its header, weights are positive.  Nothing is assumed about the
+   anchor: it may be the hash of a delivered header (checkpoint), see C15_example_checkpoint.  No exclusion predicate remains: duplicates (also of locked headers, also of the block at the lock
    point), orphans whose parent arrives in the same batch as other descendants, equally heavy chains at a lock —
    everything is covered.  A lock index beyond the reported length raises IndexError in Python and stops the
    modelled run with [OutOfRange]; every snapshot before it is covered. *)
@@ -25,32 +25,47 @@ Import ListNotations.
 Local Open Scope N_scope.
 
 (* ------------------------------------------------------------------ the full statement *)
-(* for every forest of headers, every batching, every lock index, every pop order and iteration order: the run
-   does not crash and every snapshot — taken after each event — is good: the reported chain is a chain from the
-   initial anchor, its unlocked part is a heaviest chain from the current anchor among the headers delivered so
-   far, hash_to_index_lookup agrees with it, and all ops returned so far, applied to [], reproduce it *)
+(* A BlockChain is constructed with any anchor hash — the default, a checkpoint hash that is also the hash of a real
+   header, anything — and optionally preloaded with a chain [pre] of locked headers (preload_locked_blocks); then any
+   history follows.  For every forest of headers (which may contain the anchor block's own header, headers of its
+   ancestors, of preloaded and of locked blocks, duplicates of all of them), every batching, every lock index, every
+   pop order and iteration order: the run does not crash and every snapshot — taken after each event — is good: the
+   reported chain is a chain from the initial anchor, its unlocked part is a heaviest chain from the current anchor
+   among the headers known so far, hash_to_index_lookup agrees with it, and all ops returned so far, applied to the
+   preloaded chain, reproduce it *)
 Definition C15_statement : Prop :=
-  forall (anchor : hash) (evs : list event), wf_headers anchor (all_headers evs) ->
-  forall tr st, run anchor evs = (tr, st) ->
-  (st = Done \/ st = OutOfRange) /\ good_trace anchor [] [] evs tr.
+  forall (anchor : hash) (pre : list header) (evs : list event),
+  wf_headers (pre ++ all_headers evs) -> chain_headers anchor pre ->
+  forall tr st, run_pre anchor pre evs = (tr, st) ->
+  (st = Done \/ st = OutOfRange) /\ good_trace anchor (map hh pre) pre [] evs tr.
 
 Theorem C15_holds : C15_statement.
 Proof. exact full_history. Qed.
 Print Assumptions C15_holds.
 
+(* without preloading ([run anchor evs] = [run_pre anchor [] evs]) *)
+Theorem C15_holds_plain :
+  forall (anchor : hash) (evs : list event), wf_headers (all_headers evs) ->
+  forall tr st, run anchor evs = (tr, st) ->
+  (st = Done \/ st = OutOfRange) /\ good_trace anchor [] [] [] evs tr.
+Proof. exact full_history_plain. Qed.
+Print Assumptions C15_holds_plain.
+
 (* the three clauses of the property for the snapshot [s] taken after the k-th event, separately;
-   [all_headers (firstn (S k) evs)] = the headers delivered so far, [flat_map ops_of (firstn (S k) tr)] = all ops
+   [pre ++ all_headers (firstn (S k) evs)] = the headers known so far, [flat_map ops_of (firstn (S k) tr)] = all ops
    returned so far *)
 Theorem C15_reports_heaviest :
-  forall anchor evs tr st, wf_headers anchor (all_headers evs) -> run anchor evs = (tr, st) ->
+  forall anchor pre evs tr st, wf_headers (pre ++ all_headers evs) -> chain_headers anchor pre ->
+  run_pre anchor pre evs = (tr, st) ->
   forall k s, nth_error tr k = Some s -> (k < length evs)%nat ->
-  is_chain (all_headers (firstn (S k) evs)) anchor (s_chain s) /\
-  heaviest (all_headers (firstn (S k) evs)) (snapshot_anchor anchor s) (skipn (s_locked s) (s_chain s)).
+  is_chain (pre ++ all_headers (firstn (S k) evs)) anchor (s_chain s) /\
+  heaviest (pre ++ all_headers (firstn (S k) evs)) (snapshot_anchor anchor s) (skipn (s_locked s) (s_chain s)).
 Proof. exact snapshot_chain_heaviest. Qed.
 Print Assumptions C15_reports_heaviest.
 
 Theorem C15_index_maps_agree :
-  forall anchor evs tr st, wf_headers anchor (all_headers evs) -> run anchor evs = (tr, st) ->
+  forall anchor pre evs tr st, wf_headers (pre ++ all_headers evs) -> chain_headers anchor pre ->
+  run_pre anchor pre evs = (tr, st) ->
   forall k s, nth_error tr k = Some s -> (k < length evs)%nat ->
   (forall i h, nth_error (s_chain s) i = Some h -> dget h (s_h2i s) = Some (Z.of_nat i)) /\
   (forall h z, dget h (s_h2i s) = Some z -> exists i, z = Z.of_nat i /\ nth_error (s_chain s) i = Some h).
@@ -58,9 +73,10 @@ Proof. exact snapshot_maps. Qed.
 Print Assumptions C15_index_maps_agree.
 
 Theorem C15_ops_replay :
-  forall anchor evs tr st, wf_headers anchor (all_headers evs) -> run anchor evs = (tr, st) ->
+  forall anchor pre evs tr st, wf_headers (pre ++ all_headers evs) -> chain_headers anchor pre ->
+  run_pre anchor pre evs = (tr, st) ->
   forall k s, nth_error tr k = Some s -> (k < length evs)%nat ->
-  apply_ops (flat_map ops_of (firstn (S k) tr)) [] = Some (s_chain s).
+  apply_ops (flat_map ops_of (firstn (S k) tr)) (map hh pre) = Some (s_chain s).
 Proof. exact snapshot_ops. Qed.
 Print Assumptions C15_ops_replay.
 
@@ -89,19 +105,30 @@ Print Assumptions C15_reported_is_heaviest.
 (* the three histories on which the code used to fail, evaluated on the model with the pop order / preference that
    exposed the defect (they are also replayed on the real BlockChain by harness/c15.py on every run):
    1. [7<-9, 6<-7], then [8<-9, 9<-anchor] with 8 popped first: [9,7,6] is reported *)
-Example C15_regression_orphan_parent : wf_headers 0 (all_headers regress1) /\
+Example C15_regression_orphan_parent : wf_headers (all_headers regress1) /\
   exists tr, run 0 regress1 = (tr, Done) /\ map s_chain tr = [[]; [9; 7; 6]].
 Proof. exact regress1_ok. Qed.
 (* 2. [1<-0, 2<-1, 3<-2]; lock_to_index(2); 2<-1 again; 4<-3: 3 and 4 stay reported *)
-Example C15_regression_anchor_redelivered : wf_headers 0 (all_headers regress2) /\
+Example C15_regression_anchor_redelivered : wf_headers (all_headers regress2) /\
   exists tr, run 0 regress2 = (tr, Done) /\ map s_chain tr = [[1; 2; 3]; [1; 2; 3]; [1; 2; 3]; [1; 2; 3; 4]].
 Proof. exact regress2_ok. Qed.
 (* 3. [1<-0, 2<-1], [3<-2], [11<-2]; lock_to_index(1) with the other tied chain preferred afterwards: unchanged *)
-Example C15_regression_lock_with_tie : wf_headers 0 (all_headers regress3) /\
+Example C15_regression_lock_with_tie : wf_headers (all_headers regress3) /\
   exists tr, run 0 regress3 = (tr, Done) /\ map s_chain tr = [[1; 2]; [1; 2; 3]; [1; 2; 3]; [1; 2; 3]].
 Proof. exact regress3_ok. Qed.
 (* non-vacuity: an orphan subtree adopted later, a fork, a lock and a later extension *)
-Example C15_example : wf_headers 0 (all_headers clean_example) /\
+Example C15_example : wf_headers (all_headers clean_example) /\
   exists tr, run 0 clean_example = (tr, Done) /\
     map s_chain tr = [[]; [9; 7; 6]; [9; 7; 6]; [9; 7; 6]; [9; 7; 6; 13]].
 Proof. exact clean_example_ok. Qed.
+(* a BlockChain anchored at checkpoint block 2 by the constructor only; the checkpoint header, its parent's header and
+   descendants arrive in overlapping batches: the chain from the checkpoint is reported *)
+Example C15_example_checkpoint : wf_headers (all_headers checkpoint_example) /\
+  exists tr, run 2 checkpoint_example = (tr, Done) /\ map s_chain tr = [[3]; [3; 4]; [3; 4]].
+Proof. exact checkpoint_example_ok. Qed.
+(* preload_locked_blocks [1<-0; 2<-1]; then the block at the lock point, a preloaded block and new blocks arrive *)
+Example C15_example_preload : wf_headers (preload_example_pre ++ all_headers preload_example) /\
+  chain_headers 0 preload_example_pre /\
+  exists tr, run_pre 0 preload_example_pre preload_example = (tr, Done) /\
+    map s_chain tr = [[1; 2; 3]; [1; 2; 3; 4]; [1; 2; 3; 4]; [1; 2; 3; 4]] /\ map s_locked tr = [2; 2; 3; 3]%nat.
+Proof. exact preload_example_ok. Qed.
